@@ -389,10 +389,10 @@ def binop(op, a, b):
             x, ex = as_float(a)
             y, ey = as_float(b)
             try:
-                if op == "+":
-                    return F(x + y, ex + ey)
-                if op == "-":
-                    return F(x - y, ex + ey)
+                if op in "+-":
+                    # inexact operands: the rounding of the sum may fall to either side
+                    r = x + y if op == "+" else x - y
+                    return F(r, (ex + ey) * 1.01 + ulp(r) if ex + ey else 0.0)
                 if op == "*":
                     r = x * y
                     return F(r, (abs(x) * ey + abs(y) * ex + ex * ey) * 1.01 + (ulp(r) if ex + ey else 0))
